@@ -124,4 +124,23 @@ PROPS = {
         "trusted_base": COMMON_TB + ["FillValue::equals_all's 128-bit aligned fast paths are reached only through the correspondence (chunk sizes 1..64 elements at whatever alignment the allocator gives)"],
         "assumptions": ["inner-chunk elision inside shards is observed through reads and through C05's shard parser, not through the key listing"],
     },
+    "C18": {
+        "claimed": False,
+        "lean_props": ["ZarrsModel.Props.C18"],
+        "harness": "c18",
+        "driver_gen": True,
+        "shards": 12,
+        "rule": "the Lean driver enumerates the lock-protocol models: EVERY pair of single operations (mem: set, set', partial set, get, ranged get, size, erase; fs: the same without partial set) x "
+                "initial value {absent, present} x ALL schedules, plus seeded random programs of 2 threads x <=2 ops, 3 x 1, 3 x <=2 and 2 x <=3 ops with all schedules up to a cap; each schedule is replayed on the "
+                "real MemoryStore / FilesystemStore through the yield hooks H1/H2 (one permit = one model step) and the per-thread responses and final value are compared with the model's; for "
+                "some schedules a step the model forbids is probed and must block; the driver also re-checks every model history with the executable linearizability checker; "
+                "non-trivial = distinct schedule with at least two threads interleaved",
+        "nontrivial": lambda l: " sched=" in l and len(set(l.split(" sched=")[1].split(" ")[0].split(","))) > 1,
+        "exhaustive": True,
+        "exhaustive_scope": "all schedules of all 2-thread single-operation programs over the operation alphabet, both stores, both initial states",
+        "trusted_base": COMMON_TB + ["hooks H1/H2 (yield points before every lock acquisition and before the write inside set_impl) under cfg(zarrs_verif)",
+                                     "parking_lot / std lock semantics and atomicity of OS file operations inside one critical section are assumed"],
+        "assumptions": ["one key (operations on other keys do not touch its map entry, cells or file lock)", "a step that does not complete within 250 ms is reported as blocked"],
+        "timeout": 3000,
+    },
 }
